@@ -55,8 +55,11 @@ class PitRun:
         self.bg = []
         self.wires = {}
         self.nsent = 0
+        self.coros = {}
 
     def close(self):
+        for c in self.coros.values():
+            c.close()
         self.sess.__exit__(None, None, None)
 
     # ---- helpers
@@ -177,11 +180,16 @@ class PitRun:
                 return
             if a == 'ExpressDown':
                 self.bg.append('express-while-down-accepted')
-            task = loop.create_task(coro)
             idx = len(self.tasks)
-            self.tasks.append(task)
             self.done_at.append(0)
-            task.add_done_callback(lambda _t, idx=idx: self.done_at.__setitem__(idx, self.tick()))
+            if ev.get('defer'):
+                # the caller keeps the awaitable and awaits it later (event Await)
+                self.tasks.append(None)
+                self.coros[idx] = coro
+            else:
+                task = loop.create_task(coro)
+                self.tasks.append(task)
+                task.add_done_callback(lambda _t, idx=idx: self.done_at.__setitem__(idx, self.tick()))
             loop.settle(timers_now=False)
             sent = self.face.out[before:]
             if len(sent) != 1:
@@ -238,9 +246,17 @@ class PitRun:
             loop.settle(timers_now=True)
             loop.set_time(self.t0 + (self.tick() + 1) * TICK_MS / 1000.0)
             loop.settle(timers_now=False)
+        elif a == 'Await':
+            idx = ev['e'] - 1
+            coro = self.coros.pop(idx, None)
+            if coro is not None:
+                task = loop.create_task(coro)
+                self.tasks[idx] = task
+                task.add_done_callback(lambda _t, idx=idx: self.done_at.__setitem__(idx, self.tick()))
+            loop.settle(timers_now=False)
         elif a == 'Cancel':
             e = ev['e']
-            if e <= len(self.tasks):
+            if e <= len(self.tasks) and self.tasks[e - 1] is not None:
                 self.tasks[e - 1].cancel()
             loop.settle(timers_now=False)
         elif a == 'Shutdown':
